@@ -1,2 +1,121 @@
+"""C14 structural rules R2-R3: SAN reader tables vs. piece constants / geometry / writer; uniqueness of the parse."""
+from ..cfg import Cfg
+from ..expr import Exprs, fold, Unfoldable, show, leaves
+from .. import geometry as G
+from .c15_struct import str_match_arms
+from .common import BB
+
+C = "inkayaku_core::constants::"
+
+
+def letter_values(f):
+    cfg, ex = Cfg(f), Exprs(f)
+    out = []
+    for kw, eqb, head, other in str_match_arms(f, cfg, ex):
+        t = f["blocks"][head]["term"]
+        val = None
+        if t["k"] == "switch" and len(t["targets"]) == 1:
+            val = ("switch", t["targets"][0][0])
+        else:
+            for s in f["blocks"][head]["stmts"]:
+                if s["rv"]["op"] == "use" and s["rv"]["a"][0].get("k") == "const" and isinstance(s["rv"]["a"][0].get("v"), int) and not isinstance(s["rv"]["a"][0].get("v"), bool):
+                    val = ("const", s["rv"]["a"][0]["v"])
+        out.append((kw, val, f["blocks"][eqb]["term"]["line"]))
+    return out
+
+
 def run(ctx):
-    pass
+    rid = "C14.R2"
+    ctx.rule(rid, "SAN reader tables: piece / promotion letters map to the piece constants whose upper-case FEN letter they are (what the writer emits); file letters and rank digits map to the geometric file / rank masks; castling wings map to the c / g file", floor=30)
+    prog = ctx.prog
+    pieces = {c["value"]["index"]: c["value"] for k, c in prog.consts.items() if k.startswith(C + "piece::Piece::") and isinstance(c["value"], dict) and "fen" in c["value"]}
+    closures = sorted(k for k in prog.children(BB + "pgn_to_bb") if prog.fns[k]["kind"] == "closure")
+    if len(pieces) != 6 or len(closures) < 3:
+        ctx.lost(rid, "Piece constants / closures of pgn_to_bb")
+        return
+    seen = {"piece": set(), "promotion": set(), "file": 0, "rank": 0}
+    for ck in closures:
+        f = prog.fns[ck]
+        lv = letter_values(f)
+        is_pawn_filter = any(kw in ("B", "N", "R", "Q") for kw, _, _ in lv) and not any(kw == "K" for kw, _, _ in lv)
+        for kw, val, line in lv:
+            tag = ck.rsplit("::", 1)[-1]
+            if val is None:
+                ctx.lost(rid, "value paired with %r in %s" % (kw, ck))
+                continue
+            if kw in "KQRBN" and val[0] == "switch":
+                k = val[1]
+                ok = k in pieces and pieces[k]["fen"].upper() == kw
+                kind = "promotion" if is_pawn_filter else "piece"
+                seen[kind].add(kw)
+                ctx.ob(rid, "%s|%s-letter-%s" % (tag, kind, kw), ok, "" if ok else "SAN %s letter %r selects piece kind %s (%s); the writer emits %r for that kind" % (kind, kw, k, pieces.get(k, {}).get("name"), pieces.get(k, {}).get("fen", "?").upper()),
+                       ctx.where(f, line), sample={"letter": kw, "piece": pieces.get(k, {}).get("name")})
+            elif kw in "abcdefgh" and val[0] == "const":
+                ok = val[1] == G.file_mask(ord(kw) - ord("a"))
+                seen["file"] += 1
+                ctx.ob(rid, "%s|file-%s" % (tag, kw), ok, "" if ok else "SAN file letter %r selects mask %#x, the %s-file is %#x" % (kw, val[1], kw, G.file_mask(ord(kw) - ord("a"))), ctx.where(f, line))
+            elif kw in "12345678" and val[0] == "const":
+                ok = val[1] == G.row_mask(8 - int(kw))
+                seen["rank"] += 1
+                ctx.ob(rid, "%s|rank-%s" % (tag, kw), ok, "" if ok else "SAN rank digit %r selects mask %#x, rank %s is %#x" % (kw, val[1], kw, G.row_mask(8 - int(kw))), ctx.where(f, line))
+            else:
+                ctx.lost(rid, "unrecognised SAN token arm %r -> %s in %s" % (kw, val, ck))
+    ok = seen["piece"] == set("KQRBN") and seen["promotion"] == set("QRBN") and seen["file"] == 16 and seen["rank"] == 8
+    ctx.ob(rid, "letter-sets", ok, "" if ok else "letters handled: pieces %s, promotions %s, file arms %d, rank arms %d" % (sorted(seen["piece"]), sorted(seen["promotion"]), seen["file"], seen["rank"]), "")
+    # castling wing -> target file
+    wing = None
+    for ck in closures:
+        f = prog.fns[ck]
+        cfg, ex = Cfg(f), Exprs(f)
+        for b in sorted(cfg.reach):
+            t = f["blocks"][b]["term"]
+            if t["k"] == "switch" and len(t["targets"]) == 1:
+                d = ex.operand(t["discr"])
+                names = [x[2] for x in leaves(d) if x[0] == "f"]
+                if "long_castle" in names:
+                    arms = {}
+                    for nm, blk in (("long", t["otherwise"]), ("short", t["targets"][0][1])):
+                        for s in f["blocks"][blk]["stmts"]:
+                            if s["rv"]["op"] == "use" and s["rv"]["a"][0].get("k") == "const" and isinstance(s["rv"]["a"][0].get("v"), int):
+                                arms[nm] = s["rv"]["a"][0]["v"]
+                    wing = (arms, f, t["line"])
+    if wing is None:
+        ctx.lost(rid, "castling wing selection (long_castle) in pgn_to_bb")
+    else:
+        arms, f, line = wing
+        ok = arms == {"long": G.file_mask(2), "short": G.file_mask(6)}
+        ctx.ob(rid, "castle-wing-files", ok, "" if ok else "O-O-O / O-O select target files %s (expected c-file / g-file masks)" % {k: hex(v) for k, v in arms.items()}, ctx.where(f, line), sample={k: hex(v) for k, v in arms.items()})
+    w = ctx.fn(rid, BB + "uci_to_pgn")
+    strs = set()
+    for b in w["blocks"]:
+        for s in b["stmts"]:
+            for a in s["rv"].get("a", []):
+                if a.get("k") == "const" and isinstance(a.get("v"), str):
+                    strs.add(a["v"])
+    ok = {"O-O", "O-O-O", "x", "+", "#"} <= strs
+    ctx.ob(rid, "writer-castling-strings", ok, "" if ok else "the SAN writer's string constants %s lack one of O-O, O-O-O, x, +, #" % sorted(strs), ctx.where(w))
+    # ---- R3
+    rid = "C14.R3"
+    ctx.rule(rid, "pgn_to_bb returns Ok only when exactly one legal candidate remains", floor=1)
+    f = ctx.fn(rid, BB + "pgn_to_bb")
+    cfg, ex = Cfg(f), Exprs(f)
+    oks = []
+    for b in sorted(cfg.reach):
+        for s in f["blocks"][b]["stmts"]:
+            d = s["dst"]
+            if d is not None and d["l"] == 0 and not d["p"] and s["rv"]["op"] == "agg" and s["rv"].get("variant") == "Ok":
+                oks.append((b, s["line"]))
+    if not oks:
+        ctx.lost(rid, "Ok(..) result of pgn_to_bb")
+        return
+    for b, line in oks:
+        good = False
+        for (a, sb) in cfg.control_deps_transitive(b):
+            sw = f["blocks"][a]["term"]
+            if sw["k"] != "switch":
+                continue
+            d = ex.operand(sw["discr"])
+            if d[0] == "bin" and d[1] in ("Ne", "Eq") and any(x[0] == "c" and x[1] == 1 for x in (d[2], d[3])) and any(x[0] == "call" and x[1].endswith("Vec::len") for x in (d[2], d[3])):
+                true_edge = sb == sw["otherwise"]
+                good = good or (d[1] == "Ne" and not true_edge) or (d[1] == "Eq" and true_edge)
+        ctx.ob(rid, "ok-only-for-one-candidate", good, "" if good else "pgn_to_bb can return Ok without testing that exactly one legal move matches", ctx.where(f, line))
